@@ -185,7 +185,12 @@ func (w *world) configure(withBad bool) string {
 		l = append(l, spell(w.r, w.victims[w.r.Intn(len(w.victims))], w.r.Intn(nForms)))
 	}
 	if withBad {
-		l = append(l, badSpelling(w.r, w.r.Bytes(20)))
+		res := w.setList(append(append([]string{}, l...), badSpelling(w.r, w.r.Bytes(20))))
+		if res == "ok" {
+			return res
+		}
+		// a malformed entry was refused (panic at load, nothing installed): the victims must still be
+		// listed for the by-construction truth of the generated transactions, so install the list without it
 	}
 	return w.setList(l)
 }
